@@ -169,7 +169,16 @@ def validate_url(url: str) -> None:
         )
 
     # Parse to validate structure
-    parse_url(url)
+    parsed = parse_url(url)
+
+    # The normalized form is what a client puts on the wire (an empty path
+    # becomes "/"), so it has to fit into a request as well
+    normalized_size = len(parsed.normalized.encode("utf-8"))
+    if normalized_size + 2 > MAX_REQUEST_SIZE:
+        raise ValueError(
+            f"URL too long: {normalized_size} bytes when normalized "
+            f"(max {MAX_REQUEST_SIZE - 2} bytes)"
+        )
 
 
 def normalize_url(url: str) -> str:
